@@ -566,7 +566,18 @@ def conversion_case(ctx, nbits, sizes, bit_order, perm_bits, int_levels, dict_or
     before = {r: tt.of(r) for r in held}
     dvars = [(v, levels[v], 1 << len(bs), bs) for v, bs in groups]
     dvars = [dvars[k] for k in dict_order]
+    if dyn:
+        # arm the harness trigger: the first ELIGIBLE reordering request inside the call would fire
+        # (and sifting would destroy the zone order mid-loop); none may become eligible
+        s.op(0, 'set_last_len', 1)
+        s.op(0, 'fire_in', 1)
     ans = s.op(0, 'bdd_to_mdd', fmt_dvars(dvars), 0)
+    if dyn:
+        if implmod._FIRE.get(id(b)) != 1:
+            ctx.violation('a reordering request became eligible inside bdd_to_mdd', dict(
+                dvars=fmt_dvars(dvars), lines=list(s.lines),
+                tags=dict(call='bdd_to_mdd', request_inside=True)))
+        s.op(0, 'fire_off')
     replay = dict(bit_order=list(bit_order), dvars=fmt_dvars(dvars), tts=list(tts), held=held,
                   lines=list(s.lines))
     bad = conversion_oracle(ctx, s, sp, groups, levels, held, before, ans, replay)
